@@ -223,8 +223,43 @@ func cmdCheck(args []string) int {
 			bargs = append(bargs, "-cover", "-covermode=set", "-coverpkg="+strings.Join(strings.Fields(string(lo)), ","))
 		}
 		bargs = append(bargs, st.Pkg)
+		buildDir := repoDir
+		if cover {
+			// the cover tool does not follow overlays: materialise the overlaid tree and build there
+			tree := filepath.Join(work, "covtree")
+			os.RemoveAll(tree)
+			if out, err := exec.Command("rsync", "-a", "--exclude", ".git", repoDir+"/", tree+"/").CombinedOutput(); err != nil {
+				fmt.Printf("BUILD-FAILED property=%s step=%s: covtree: %v\n%s\n", id, st.Name, err, out)
+				return 2
+			}
+			var ovj struct{ Replace map[string]string }
+			ob, _ := os.ReadFile(ov[0])
+			json.Unmarshal(ob, &ovj)
+			for k, v := range ovj.Replace {
+				rel, err := filepath.Rel(repoDir, k)
+				if err != nil || strings.HasPrefix(rel, "..") {
+					continue
+				}
+				b, err := os.ReadFile(v)
+				if err != nil {
+					continue
+				}
+				os.MkdirAll(filepath.Dir(filepath.Join(tree, rel)), 0o755)
+				os.WriteFile(filepath.Join(tree, rel), b, 0o644)
+			}
+			buildDir = tree
+			nb := []string{}
+			for i := 0; i < len(bargs); i++ {
+				if bargs[i] == "-overlay" {
+					i++
+					continue
+				}
+				nb = append(nb, bargs[i])
+			}
+			bargs = nb
+		}
 		bc := exec.Command(goBin, bargs...)
-		bc.Dir = repoDir
+		bc.Dir = buildDir
 		bc.Env = goEnv(work)
 		if out, err := bc.CombinedOutput(); err != nil {
 			fmt.Printf("BUILD-FAILED property=%s step=%s: %v\n%s\n", id, st.Name, err, out)
